@@ -14,6 +14,7 @@ Monitors: paired calls of public callables on identical inputs:
 import numpy as np
 
 from tflv import core
+from tflv import modes
 from tflv.oracles import kfl as okfl
 from tflv.oracles import lattice as ol
 
@@ -56,7 +57,12 @@ KINDS = ["kfl", "pwl_fn", "cdf", "parallel", "aggregation", "rtl"]
 def gen_cases(ctx):
   rng = ctx.rng
   for i in range(ctx.n):
-    yield {"kind": KINDS[i % len(KINDS)], "seed": int(rng.randint(2**31 - 1))}
+    yield {"kind": KINDS[i % len(KINDS)], "seed": int(rng.randint(2**31 - 1)), "exec": modes.pick(rng, (0.5, 0.2, 0.3))}
+
+
+def _call(st, fn, *args):
+  """The representation under test runs in the case's execution mode; its reference twin always runs eagerly."""
+  return modes.call(st["tf"], st.get("exec", "eager"), fn, *args)
 
 
 def _pair(ctx, site, a, b, tol, what, info=None):
@@ -83,7 +89,7 @@ def _kfl(ctx, rng, st):
   S = rng.normal(size=layer.scale.shape).astype(np.float32)
   b = rng.normal(size=layer.bias.shape).astype(np.float32)
   layer.kernel.assign(K); layer.scale.assign(S); layer.bias.assign(b)
-  y = layer(tf.constant(xin)).numpy().reshape(B, units)
+  y = _call(st, layer, tf.constant(xin)).numpy().reshape(B, units)
   dense = okfl.dense_kernel(K, S, b)
   lat = tfl.layers.Lattice(lattice_sizes=[L] * dims, units=units, clip_inputs=clip)
   lat(tf.constant(xin))
@@ -125,7 +131,8 @@ def _pwl_fn(ctx, rng, st):
     x[2, :] = np.float32(miv)
   kw = dict(keypoint_input_min=imin, keypoint_input_max=imax, keypoint_output_min=omin, keypoint_output_max=omax, units=units,
             monotonicity=mono, clamp_min=cmin, clamp_max=cmax, is_cyclic=cyc, missing_input_value=miv, missing_output_value=mov)
-  y, deltas, heights = cpc.pwl_calibration_fn(tf.constant(x), tf.constant(kin), tf.constant(kout), return_derived_parameters=True, **kw)
+  y, deltas, heights = _call(st, lambda a, b_, c: cpc.pwl_calibration_fn(a, b_, c, return_derived_parameters=True, **kw),
+                             tf.constant(x), tf.constant(kin), tf.constant(kout))
   y, deltas, heights = y.numpy().astype(np.float64), deltas.numpy()[0].astype(np.float64), heights.numpy()[0].astype(np.float64)
   ctx.cls("pwl_fn:mono=" + mono, "pwl_fn:clamp=%d%d" % (cmin, cmax), "pwl_fn:cyclic=%s" % cyc, "pwl_fn:missing=%s" % use_missing, "pwl_fn:units=%d" % units)
   delta = 4 * core.F32_EPS * max(abs(imin), abs(imax)) * (1 + nk / 4.0)
@@ -173,8 +180,8 @@ def _cdf(ctx, rng, st):
   y = layer(tf.constant(x)).numpy()
   kern = layer.kernel.numpy()
   sc = np.broadcast_to(np.asarray(layer.input_scaling), (1, D, 1, 1)) if stype != "learned_per_input" else layer.input_scaling.numpy()
-  y2 = ccdf.cdf_fn(tf.constant(x), tf.constant(np.tile(kern, [B, 1, 1, 1])), tf.constant(np.tile(sc, [B, 1, 1, 1]).astype(np.float32)),
-                   units=units, activation=act, reduction=red, sparsity_factor=sf).numpy()
+  y2 = _call(st, lambda a, b_, c: ccdf.cdf_fn(a, b_, c, units=units, activation=act, reduction=red, sparsity_factor=sf),
+             tf.constant(x), tf.constant(np.tile(kern, [B, 1, 1, 1])), tf.constant(np.tile(sc, [B, 1, 1, 1]).astype(np.float32))).numpy()
   ctx.cls("cdf:act=" + act, "cdf:red=" + red, "cdf:sparsity=%d" % sf, "cdf:scaling=" + stype)
   _pair(ctx, "pair/cdf_fn=CDF-layer", y, y2, 1e-5, "cdf_fn vs CDF layer", {"act": act, "red": red, "sf": sf})
   return float(y.max() - y.min()) > 0, core.arr_digest(kern, x)
@@ -203,7 +210,7 @@ def _parallel(ctx, rng, st):
   y = pc(inp)
   for l in layers:
     l.kernel.assign(rng.normal(size=l.kernel.shape).astype(np.float32))
-  y = pc(inp)
+  y = _call(st, pc, inp)
   y = np.concatenate([t.numpy() for t in y], axis=1) if not single else y.numpy()
   ref = np.concatenate([l(tf.constant(c)).numpy() for l, c in zip(layers, cols)], axis=1)
   ctx.cls("parallel:k=%d" % k, "parallel:single=%s" % single, "parallel:list_input=%s" % as_list)
@@ -270,7 +277,7 @@ def _rtl(ctx, rng, st):
   for lay in layer._lattice_layers.values():
     for w in lay.weights:
       w.assign(rng.normal(size=w.shape).astype(np.float32))
-  y = layer(feed)
+  y = _call(st, layer, feed)
   flat = np.concatenate([feed[k].numpy() for k in sorted(feed.keys())], axis=1).astype(np.float64)
   outs = [[], []]
   for monos, inputs_for_units in layer._rtl_structure:
@@ -316,6 +323,7 @@ def run_case(ctx, case):
   st = _ensure()
   rng = np.random.RandomState(case["seed"])
   fn = {"kfl": _kfl, "pwl_fn": _pwl_fn, "cdf": _cdf, "parallel": _parallel, "aggregation": _aggregation, "rtl": _rtl}[case["kind"]]
-  ctx.cls("pair:" + case["kind"])
+  st["exec"] = case.get("exec", "eager")
+  ctx.cls("pair:" + case["kind"], "exec:" + st["exec"])
   nontrivial, key = fn(ctx, rng, st)
-  return nontrivial, core.digest([case["kind"], key])
+  return nontrivial, core.digest([case["kind"], st["exec"], key])
